@@ -739,6 +739,14 @@ func (c *Ctx) codecOpaque(fn *ssa.Function, depth int) string {
 			continue
 		}
 		instrsOf(f, func(i ssa.Instruction) {
+			// the stream kept in a field of a local reader/writer value: the tables do
+			// not follow the methods that use it
+			if st, isSt := i.(*ssa.Store); isSt && why == "" {
+				if _, isFA := st.Addr.(*ssa.FieldAddr); isFA && isStreamType(ir.StripIface(st.Val).Type()) || isFA && isStreamType(st.Val.Type()) {
+					why = "the stream is kept in a field of a local value in " + name(f)
+				}
+				return
+			}
 			call, ok := i.(*ssa.Call)
 			if !ok || why != "" {
 				return
